@@ -24,6 +24,7 @@ func openCount(p *kern.Proc) int {
 // to their baseline after every call.
 func c12(nops int, allowCancel bool) {
 	w := newWorld()
+	w.multiProc = true
 	host := w.k.Host()
 	// descriptors the caller hands to Execve
 	host.OpenAt(5, w.k.NewFile("stdin"), true)
@@ -81,6 +82,11 @@ func c12(nops int, allowCancel bool) {
 			if pr := w.prog; pr != nil && pr.started {
 				sym.Reach("program-ran")
 				sym.Assert(pr.ended && pr.reaped, "a process of the run is still alive or is a zombie of init when Execve returns")
+				if pr.second {
+					// killed before the reply (kill(-1)); the container reaps it before it serves the next command
+					sym.Reach("second-process")
+					sym.Assert(pr.secondDead, "another process of the run is still alive when Execve returns")
+				}
 				sym.Assert(w.killAllSent > 0, "everything inside the container must be killed after a run")
 			}
 		case 2:
@@ -88,6 +94,9 @@ func c12(nops int, allowCancel bool) {
 		}
 		sym.WaitOthers() // let both sides settle (reply sent, files closed)
 		sym.Reach("settled")
+		if pr := w.prog; pr != nil && pr.started && pr.second {
+			sym.Assert(pr.secondDead && pr.secondReaped, "a process of the run is left as a zombie child of the container init")
+		}
 		sym.Assert(openCount(host) == baseHost, "the host process leaked (or lost) a descriptor")
 		sym.Assert(openCount(w.initProc) == 0, "the container init leaked a descriptor")
 		sym.Assert(w.doubleClose == 0 && w.badClose == 0, "a descriptor was closed twice")
